@@ -289,4 +289,4 @@ mod tests {
 
 #[cfg(feature = "breard_r_acmed_verif")]
 #[path = "/verif/probe/http_probe.rs"]
-mod verif;
+pub(crate) mod verif;
